@@ -853,25 +853,10 @@ def degree_operations(obj, param, **kwargs):
 
     # Start surface degree manipulation operations
     if isinstance(obj, abstract.Surface):
-        # u-direction
-        if param[0] is not None and param[0] != 0:
-
-            # If parameter is positive, apply degree elevation. Else, apply degree reduction
-            if param[0] > 0:
-                pass
-            else:
-                # Apply degree reduction operation
-                validate_reduction(obj.degree_u)
-
-        # v-direction
-        if param[1] is not None and param[1] != 0:
-
-            # If parameter is positive, apply degree elevation. Otherwise, apply degree reduction
-            if param[1] > 0:
-                pass
-            else:
-                # Validate degree reduction operation
-                validate_reduction(obj.degree_v)
+        # The degree manipulation of surfaces has not been implemented: a request which asks for a change is refused instead
+        # of being answered by the unchanged surface
+        if any(prm is not None and prm != 0 for prm in param[0:2]):
+            raise GeomdlException("Degree manipulation operations are not available for spline surfaces")
 
     # Start surface degree manipulation operations
     if isinstance(obj, abstract.Volume):
